@@ -122,7 +122,85 @@ class SymCompositor:
         return C * o, A * o
 
 
-def same_rendering(h, src_text, out_text, label, tolerance=None):
+class SkiaCallRecorder:
+    """Concrete runs only: records the questions picosvg asks the real Skia
+    (stroke parameters, conic tolerance) by substituting a recording subclass of
+    pathops.Path inside picosvg.svg_pathops for the duration of a conversion."""
+
+    def __init__(self):
+        self.strokes = []
+        self.tolerances = []
+
+    def __enter__(self):
+        import pathops
+        import picosvg.svg_pathops as P
+        import types
+
+        rec = self
+
+        class RecPath(pathops.Path):
+            def stroke(self, width, cap, join, miter_limit, dash_array=(), dash_offset=0.0):
+                rec.strokes.append((float(width), int(cap), int(join), float(miter_limit), tuple(float(d) for d in dash_array), float(dash_offset)))
+                return super().stroke(width, cap, join, miter_limit, dash_array, dash_offset)
+
+            def convertConicsToQuads(self, tolerance=0.25):
+                rec.tolerances.append(float(tolerance))
+                return super().convertConicsToQuads(tolerance)
+
+        proxy = types.ModuleType("pathops_recording_proxy")
+        proxy.__dict__.update(pathops.__dict__)
+        proxy.Path = RecPath
+        self._P, self._orig = P, P.pathops
+        P.pathops = proxy
+        return self
+
+    def __exit__(self, *a):
+        self._P.pathops = self._orig
+
+
+def _spec_strokes(node, out):
+    if isinstance(node, R.Paint):
+        if node.tag == "stroke":
+            t = node.region
+            while t.kind in ("xf", "simplify", "c2q", "op"):
+                if t.kind == "c2q":
+                    out.append(("tol", t.args[1]))
+                t = t.args[1] if t.kind == "op" else t.args[0]
+            if t.kind == "stroke":
+                out.append(("stroke", t.args[1]))
+    else:
+        for ch in node.children:
+            _spec_strokes(ch, out)
+
+
+def concrete_glue_check(h, src, rec, label):
+    """the parameters handed to the real stroker == the cascade values (document order)"""
+    want = []
+    _spec_strokes(src, want)
+    ws = [p for k, p in want if k == "stroke"]
+    wt = [float(p) for k, p in want if k == "tol"]
+    ok = len(ws) == len(rec.strokes)
+    detail = {"spec": repr(ws)[:300], "asked": repr(rec.strokes)[:300]}
+    if ok:
+        # the conversion visits elements leaves-first: compare as multisets
+        exps = sorted((float(w), int(cap), int(join), float(miter), tuple(float(d) for d in dashes), float(off)) for (w, cap, join, miter, dashes, off) in ws)
+        for exp, got in zip(exps, sorted(rec.strokes)):
+            if exp[1:3] != got[1:3] or len(exp[4]) != len(got[4]):
+                ok = False
+                break
+            nums_e = [exp[0], exp[3], exp[5], *exp[4]]
+            nums_g = [got[0], got[3], got[5], *got[4]]
+            if any(abs(a - b) > 1e-9 * (1 + abs(a)) for a, b in zip(nums_e, nums_g)):
+                ok = False
+                break
+    if ok and wt and rec.tolerances:
+        if any(abs(a - b) > 1e-12 * (1 + abs(a)) for a, b in zip(wt, rec.tolerances)):
+            ok = False
+            detail["tolerance"] = (wt, rec.tolerances)
+    return h.check(ok, label, detail=detail)
+
+
+def same_rendering(h, src_text, out_text, label, tolerance=None, skia_calls=None):
     """composite(source) == composite(output) at every sample point"""
     spec = make_spec(h)
     try:
@@ -136,9 +214,24 @@ def same_rendering(h, src_text, out_text, label, tolerance=None):
         Co, Ao = sc.comp(out)
         cons = [z3.And(c >= 0, c <= 1) for c in sc.colors.values()]
         goal = z3.Implies(z3.And(*cons) if cons else z3.BoolVal(True), z3.And(Cs == Co, As == Ao))
-        ok = h.check(SymBool(goal), label, detail={"src": repr(src)[:500], "out": repr(out)[:500]})
+        # prefer a witness in which numbers that failed to be identified really differ
+        # (gap >= 1/100): the coverage atoms alone do not force the numbers apart
+        rob = None
+        if sc.atoms.failed_eqs:
+            parts = []
+            for fe in sc.atoms.failed_eqs:
+                for eq in (fe.children() if z3.is_and(fe) else [fe]):
+                    d = eq.arg(0) - eq.arg(1)
+                    parts.append(z3.Or(d > z3.RealVal("1/100"), -d > z3.RealVal("1/100")))
+            rob = SymBool(z3.Or(*parts))
+        ok = h.check(SymBool(goal), label, detail={"src": repr(src)[:500], "out": repr(out)[:500]}, robust=rob)
         return ok
-    return concrete_same_rendering(h, src, out, label)
+    ok = concrete_same_rendering(h, src, out, label)
+    if skia_calls is not None:
+        # glue-level replay: were the right questions put to the real Skia?
+        ok2 = concrete_glue_check(h, src, skia_calls, label)
+        return ok and ok2
+    return ok
 
 
 # ---------------------------------------------------------------- concrete evaluation
@@ -202,42 +295,62 @@ def eval_region(t, q, band):
         polys_open = _polylines(segs)
         if not polys_open:
             return False
-        dist = min(_dist_polyline(p, q) for p in polys_open)
         half = float(w) / 2
+        best = (float("inf"), False)
+        for poly, closed in polys_open:
+            d, at_vertex = _dist_polyline(poly, q, closed)
+            if d < best[0]:
+                best = (d, at_vertex)
+        dist, at_vertex = best
+        if dist > half * max(float(miter), 1.5) + band:
+            return False
+        if at_vertex:
+            # near a cap or a join the covered set depends on cap/join/miter geometry (Skia's)
+            return None
         # away from caps and joins: inside iff closer than w/2
         if dist < half - band:
             return True
-        if dist > half * max(float(miter), 1.5) + band:
+        if dist > half + band:
             return False
         return None
     return None
 
 
 def _polylines(segs):
+    """[(points, closed?)] per subpath, curves flattened"""
     out, cur = [], None
     for s in segs:
         if s[0] == "M":
-            cur = [s[1]]
+            cur = [[s[1]], False]
             out.append(cur)
             continue
         if cur is None:
-            cur = [s[1]]
+            cur = [[s[1]], False]
             out.append(cur)
         pts = W._flatten_seg(s, 32)
-        cur.extend(pts[1:])
-    return [p for p in out if len(p) > 1]
+        cur[0].extend(pts[1:])
+        if s[0] == "Z":
+            cur[1] = True
+            cur = None
+    return [(p, c) for p, c in out if len(p) > 1]
 
 
-def _dist_polyline(poly, q):
+def _dist_polyline(poly, q, closed):
+    """(distance, closest point is a corner/end of the polyline)"""
     best = float("inf")
+    at_vertex = False
     for i in range(len(poly) - 1):
         x0, y0 = poly[i]
         x1, y1 = poly[i + 1]
         dx, dy = x1 - x0, y1 - y0
         L = dx * dx + dy * dy
-        t = 0.0 if L == 0 else max(0.0, min(1.0, ((q[0] - x0) * dx + (q[1] - y0) * dy) / L))
-        best = min(best, math.hypot(q[0] - x0 - t * dx, q[1] - y0 - t * dy))
-    return best
+        t = 0.0 if L == 0 else ((q[0] - x0) * dx + (q[1] - y0) * dy) / L
+        tc = max(0.0, min(1.0, t))
+        d = math.hypot(q[0] - x0 - tc * dx, q[1] - y0 - tc * dy)
+        if d < best - 1e-12:
+            best = d
+            at_vertex = L == 0 or t <= 0.02 or t >= 0.98
+    return best, at_vertex
 
 
 def _collect_leaves(node, out):
